@@ -255,7 +255,8 @@ func (db *DB) collectGarbage() (collectedCount uint64, done bool, err error) {
 	}
 
 	// if gcIndex missing, we should set gcSize to zero.
-	if len(recycledItems) == 0 {
+	// (candidates that were only skipped as dirty are still indexed)
+	if len(candidates) == 0 {
 		// force gc clean
 		currentCollectedCount = gcSize
 	}
